@@ -10,6 +10,10 @@ use serde_json::{Value, json};
 
 const PK: [&str; 4] = ["Main", "A", "B", "C"];
 
+/// implementing types for the impl-placement cases: a struct of package B, an instance of a generic
+/// struct of B, and builtin types (which have no home package: only the trait's package may implement)
+const IMPL_TARGETS: [&str; 9] = ["B::S", "B::G[int32]", "int32", "string", "bool", "Vec[int32]", "Ref[int32]", "(int32, bool)", "[int32; 2]"];
+
 /// edges as a 12-bit mask over ordered pairs (i, j), i != j
 fn edges_of(mask: u32) -> Vec<(usize, usize)> {
     let mut v = Vec::new();
@@ -141,8 +145,10 @@ fn cases_list(tier: Tier) -> Vec<Value> {
         }
     }
     // impl placements: trait in A, type in B, impls in subsets of {A, B, C, Main}
-    for placement in 0u32..16 {
-        v.push(json!({"kind": "impl", "placement": placement}));
+    for target in IMPL_TARGETS {
+        for placement in 0u32..16 {
+            v.push(json!({"kind": "impl", "placement": placement, "target": target}));
+        }
     }
     v
 }
@@ -157,7 +163,7 @@ impl Family for Isolation {
         &["C16", "C04", "C13"]
     }
     fn rule(&self) -> &'static str {
-        "all import graphs on {Main,A,B,C} with <= 4 edges (quick) / all 4096 (thorough) incl. cycles and self-reachable shapes: accepted iff the subgraph reachable from Main is acyclic, and then the program prints the value the graph denotes; 9 existence/naming faults (missing directory, misnamed package declaration, empty directory) on a diamond; 36 qualified references (fn, type, variant) from each package of a chain to each package: accepted iff the target is the package itself or a direct import; 16 impl placements for a trait in A and a type in B: accepted iff every impl is in the trait's or the type's package and at most one exists. verdict = pure reference function of the configuration. non-trivial = configurations that must be rejected; distinct = distinct configuration"
+        "all import graphs on {Main,A,B,C} with <= 4 edges (quick) / all 4096 (thorough) incl. cycles and self-reachable shapes: accepted iff the subgraph reachable from Main is acyclic, and then the program prints the value the graph denotes; 9 existence/naming faults (missing directory, misnamed package declaration, empty directory) on a diamond; 36 qualified references (fn, type, variant) from each package of a chain to each package: accepted iff the target is the package itself or a direct import; 16 impl placements (subsets of {A, B, C, Main}) x 9 implementing types {B::S, B::G[int32], int32, string, bool, Vec[int32], Ref[int32], (int32, bool), [int32; 2]} for a trait in A: accepted iff every impl is in the trait's package or (for B's own types) the type's package and at most one exists (builtin types have no home package). verdict = pure reference function of the configuration. non-trivial = configurations that must be rejected; distinct = distinct configuration"
     }
     fn cases(&self, tier: Tier) -> Box<dyn Iterator<Item = Value> + '_> {
         Box::new(cases_list(tier).into_iter())
@@ -169,6 +175,7 @@ impl Family for Isolation {
         let expect_accept: bool;
         let mut expect_kind = "";
         let mut expect_out: Option<String> = None;
+        let mut either_ok = false;
         let site;
         let path_of = |i: usize| if i == 0 { "main.gom".to_string() } else { format!("{}/lib.gom", PK[i]) };
         match case["kind"].as_str().unwrap() {
@@ -234,45 +241,53 @@ impl Family for Isolation {
                 let in_b = placement & 2 != 0; // B imports A
                 let in_c = placement & 4 != 0;
                 let in_m = placement & 8 != 0;
+                let target = case["target"].as_str().unwrap_or("B::S");
+                let foreign = target.starts_with("B::");
+                // how the type is spelled inside B itself
+                let local_spelling = target.strip_prefix("B::").unwrap_or(target).to_string();
                 let imp = |tr: &str, ty: &str, tag: &str| format!("impl {} for {} {{ fn show(self: {}) -> string {{ \"{}\" }} }}\n", tr, ty, ty, tag);
                 let mut a = String::from("package A\n");
-                if in_a {
+                if in_a && foreign {
                     a.push_str("import B\n");
                 }
                 a.push_str("\ntrait Tr { fn show(Self) -> string; }\n");
                 if in_a {
-                    a.push_str(&imp("Tr", "B::S", "from-A"));
+                    a.push_str(&imp("Tr", target, "from-A"));
                 }
                 let mut b = String::from("package B\n");
                 if in_b {
                     b.push_str("import A\n");
                 }
-                b.push_str("\nstruct S { v: int32 }\n");
+                b.push_str("\nstruct S { v: int32 }\nstruct G[T] { g: T }\n");
                 if in_b {
-                    b.push_str(&imp("A::Tr", "S", "from-B"));
+                    b.push_str(&imp("A::Tr", &local_spelling, "from-B"));
                 }
                 let mut c = String::from("package C\nimport A\nimport B\n\nfn fC() -> int32 { 1 }\n");
                 if in_c {
-                    c.push_str(&imp("A::Tr", "B::S", "from-C"));
+                    c.push_str(&imp("A::Tr", target, "from-C"));
                 }
                 let mut m = String::from("package Main\nimport A\nimport B\nimport C\n\n");
                 if in_m {
-                    m.push_str(&imp("A::Tr", "B::S", "from-Main"));
+                    m.push_str(&imp("A::Tr", target, "from-Main"));
                 }
                 m.push_str("fn main() { string_println(int32_to_string(C::fC())) }\n");
                 files.push(("main.gom".into(), m));
                 files.push(("A/lib.gom".into(), a));
                 files.push(("B/lib.gom".into(), b));
                 files.push(("C/lib.gom".into(), c));
-                let cyclic = in_a && in_b;
-                let orphan = in_c || in_m;
+                let cyclic = in_a && in_b && foreign;
+                // B is the type's package only for B's own types
+                let orphan = in_c || in_m || (in_b && !foreign);
                 let dup = (in_a as u32 + in_b as u32 + in_c as u32 + in_m as u32) > 1;
                 expect_accept = !cyclic && !orphan && !dup;
+                // whether tuples / arrays can carry impls at all is not the point here: only their
+                // orphan / duplicate placements are judged
+                either_ok = expect_accept && (in_a || in_b) && matches!(target, "(int32, bool)" | "[int32; 2]");
                 expect_kind = if cyclic { "cycle" } else { "" };
                 if expect_accept {
                     expect_out = Some("1\n".into());
                 }
-                site = format!("impl;placement=A{}B{}C{}M{}", in_a as u8, in_b as u8, in_c as u8, in_m as u8);
+                site = format!("impl;target={};placement=A{}B{}C{}M{}", target, in_a as u8, in_b as u8, in_c as u8, in_m as u8);
             }
         }
         let proj = Project { name: site.clone(), files, expected_stdout: expect_out.clone() };
@@ -309,6 +324,9 @@ impl Family for Isolation {
                 rep.tag("accepted-but-must-reject");
                 rep.outcome = Some("accepted".into());
                 rep.findings.push(Finding { property: "C16", class: "iso.accepted".into(), site: site.clone(), detail: "a configuration that must be rejected was accepted".into(), replay });
+            }
+            (Built::Err { stage, .. }, true) if either_ok => {
+                rep.tag(format!("not-judged:rejected:{}", stage));
             }
             (Built::Err { stage, messages }, true) => {
                 rep.tag("rejected-but-must-accept");
